@@ -23,6 +23,9 @@ func c11Templates(c *run.Ctx) {
 		{"wrong-vector-kind-variable", "cv(vf)"},
 		{"wrong-vector-size", "cv(vec3<u32>(i, i, i))"},
 		{"undeclared", "nowhere(i, 1u)"},
+		{"wrong-struct", "cs(sa)"},
+		{"wrong-array-length", "ca(arr2)"},
+		{"wrong-array-element", "ca(arrf)"},
 	}
 	pos := []struct{ name, body string }{
 		{"let", "let x = CALL; o[0] = x;"},
@@ -49,7 +52,8 @@ func c11Templates(c *run.Ctx) {
 		{"phony", "_ = CALL;"},
 		{"nested-block", "{ { o[0] = CALL; } }"},
 	}
-	callee := "fn callee(a: u32, b: u32) -> u32 { return a + b; }\nfn other(a: u32) -> u32 { return a * 2u; }\nfn cv(a: vec2<u32>) -> u32 { return a.x + a.y; }\nvar<private> vf: vec2<f32> = vec2<f32>(1.0, 2.0);\n"
+	callee := "fn callee(a: u32, b: u32) -> u32 { return a + b; }\nfn other(a: u32) -> u32 { return a * 2u; }\nfn cv(a: vec2<u32>) -> u32 { return a.x + a.y; }\nvar<private> vf: vec2<f32> = vec2<f32>(1.0, 2.0);\n" +
+		"struct SA { x: u32 }\nstruct SB { y: u32 }\nfn cs(b: SB) -> u32 { return b.y; }\nvar<private> sa: SA;\nfn ca(a: array<u32, 4>) -> u32 { return a[3]; }\nvar<private> arr2: array<u32, 2>;\nvar<private> arrf: array<f32, 4>;\n"
 	type tcase struct{ id, src, rule string }
 	var list []tcase
 	for _, b := range bad {
@@ -79,7 +83,7 @@ func c11Templates(c *run.Ctx) {
 		}
 		// the well-formed sibling must compile, otherwise the case says nothing
 		good := strings.NewReplacer("callee(i, 1u, 2u)", "callee(i, 1u)", "callee(i)", "callee(i, 1u)", "callee()", "callee(i, 1u)", "callee(i, 1.5f)", "callee(i, 1u)", "callee(i, f32(i))", "callee(i, 1u)", "cv(vf + vec2<f32>(1.0, 2.0))", "callee(i, 1u)", "cv(vf)", "callee(i, 1u)", "cv(vec3<u32>(i, i, i))", "callee(i, 1u)",
-			"callee(vec2<u32>(i, i), 1u)", "callee(i, 1u)", "nowhere(i, 1u)", "callee(i, 1u)").Replace(t.src)
+			"callee(vec2<u32>(i, i), 1u)", "callee(i, 1u)", "nowhere(i, 1u)", "callee(i, 1u)", "cs(sa)", "callee(i, 1u)", "ca(arr2)", "callee(i, 1u)", "ca(arrf)", "callee(i, 1u)").Replace(t.src)
 		if st, msg := rejectedBy(good); st != "" {
 			return t.id, run.Outcome{V: run.Inconclusive, Reason: "well-formed sibling rejected (" + st + "): " + oneLine(msg)}
 		}
